@@ -53,9 +53,24 @@ def strings(maxlen):
             yield ''.join(t)
 
 
+CHAIN_OPS = [lambda e: ('opt', e), lambda e: ('star', e), lambda e: ('plus', e), lambda e: ('grp', e), lambda e: ('and', e), lambda e: ('not', e)]
+
+
+def chains():
+    """three nested unary operators over a leaf, followed by a token: the nestings that Optional/closure optimisations rewrite"""
+    for a in CHAIN_OPS:
+        for b in CHAIN_OPS:
+            for c in CHAIN_OPS:
+                for leaf in LEAVES:
+                    yield ('seq', (a(b(c(leaf))), ('tok', 'b')))
+
+
 def grammars(maxsize):
     for t in all_trees(maxsize):
         yield [('start', t)]
+    if maxsize == 3:
+        for t in chains():
+            yield [('start', t)]
     # reached through a rule call, as first and as second element of the caller
     for t in all_trees(max(1, maxsize - 1)):
         yield [('start', ('seq', (('call', 'r1'), ('tok', ',')))), ('r1', t)]
@@ -93,7 +108,7 @@ def run_shard(sh, compare, index, nshards, tier):
                 sh.flag(f)
             if d is not None:
                 sh.fail('enum-' + d['bucket'], dict(kind='enum', rules=rules, start='start', input=text), d)
-    sh.exhaustive[f'all expression trees with <= {maxsize} nodes over 8 leaves (one rule, and reached through a call) x all strings over {{a,b,\',\',space}} up to length {maxlen}'] = complete
+    sh.exhaustive[f'all expression trees with <= {maxsize} nodes over 8 leaves (one rule, and reached through a call; plus all chains of three of opt/star/plus/group/&/! over a leaf followed by a token) x all strings over {{a,b,\',\',space}} up to length {maxlen}'] = complete
 
 
 def _walk(e):
